@@ -888,7 +888,6 @@ func (g *gen) roundtripCase(tag string, v any, noModel bool, kind string) {
 		lines = append(lines, g.recfg()...)
 	}
 	lines = append(lines, "held")
-	_ = arg
 	g.emit(hxlib.Case{Lines: lines, NonTrivial: tag != "U", Kind: kind + ":" + tag, NoModel: noModel})
 }
 
@@ -1066,7 +1065,10 @@ func (g *gen) httpCase(tag string, v any, accepts []string, noModel bool, kind s
 	// "no preference" in all its spellings, under the current value of the default: a missing header, an empty one,
 	// and the exact wildcard strings
 	lines = append(lines, "setreq nil nil nil", "resp", "loadresp")
-	for _, a := range noPreference {
+	for k, a := range noPreference {
+		if k >= 2 && g.rng.Intn(3) != 0 {
+			continue // "" and "*/*" always, the other spellings in a third of the cases each
+		}
 		lines = append(lines, "setreq "+hexs(a)+" nil nil", "resp", "loadresp", "mimedump "+hexs(a), "mimeload @t @m")
 	}
 	lines = append(lines, "held")
@@ -1430,14 +1432,14 @@ func generate(r *hxlib.Run, emit func(hxlib.Case)) {
 	}
 
 	// (0b) history: results kept while other dumps / loads / assignments of the package variables happen
-	for i := 0; i < r.Budget(700, 10000); i++ {
+	for i := 0; i < r.Budget(500, 6000); i++ {
 		g.heldCase(false)
 	}
-	for i := 0; i < r.Budget(250, 4000); i++ {
+	for i := 0; i < r.Budget(150, 2000); i++ {
 		g.heldCase(true)
 	}
 	// (0c) the same functions from several goroutines at once
-	for i := 0; i < r.Budget(120, 2500); i++ {
+	for i := 0; i < r.Budget(100, 1200); i++ {
 		g.parCase()
 	}
 
@@ -1469,7 +1471,7 @@ func generate(r *hxlib.Run, emit func(hxlib.Case)) {
 		g.httpCase("S", genSubject(g.rng, 5), accepts, true, "http-maps")
 	}
 	// (3b) the same cycle over a real HTTP connection (httptest.Server), implementation + monitor only
-	for i := 0; i < r.Budget(150, 3000); i++ {
+	for i := 0; i < r.Budget(150, 2000); i++ {
 		tag, v := g.pickValue(3)
 		lines := g.cfgLine(false)
 		lines = append(lines, "val "+tag+" "+hxlib.Hex(valueJSON(tag, v)))
@@ -1525,6 +1527,8 @@ func extra(*hxlib.Run) map[string]any {
 		"codec_contract_failures":                   contractFailures,
 		"codec_contract_failures_by_codec_and_type": contractByLib,
 		"codec_contract_failure_examples":           contractExample,
+		"held_results_note":                         "the model is a set of pure functions (PB.Model.Dsd; theorem held_blobs_roundtrip; package_state_surface pins the package's variables): a result is a value, independent of every other call. The held-results stream ties exactly this purity to the code: every slice / request body a dump function returned is kept as returned (kind held:*, and `held` at the end of every roundtrip / http case), further dumps and loads of other values (same and other sizes and formats) and assignments of DefaultSerializationFormat / DefaultCompressionFormat follow, then the kept results are loaded from the kept memory (twice) and compared with the values they were dumped from (monitor) and, byte for byte, with a copy taken when they were returned (flag same/changed, compared with the model, which always says same); kind concurrent:* does the same from 2-4 goroutines at once",
+		"package_variables_note":                    "dsd.DefaultSerializationFormat and dsd.DefaultCompressionFormat are inputs: `cfg` lines assign them in about a third of the roundtrip / http / http-wire / held / concurrent cases (distribution keys cfg:*), also in the middle of a case; the executor restores the initial values after every case; generator and monitor keep their own record of them and never read the package's variables while a case runs",
 		"codec_contract_note":                       "dump lines whose value was sent through the third-party codec directly (marshal, unmarshal, equal): failures are values not representable in that format; the property makes no demand on them",
 	}
 }
@@ -1544,7 +1548,7 @@ func main() {
 	debug.SetGCPercent(400) // DumpAndCompress allocates a fresh BestCompression writer (> 1 MB) per call
 	hxlib.Main(&hxlib.Harness{
 		Prop:     "C09",
-		Rule:     "a case is one schema value (Subject: nested structs, all integer widths within ±(2^53-1), ASCII/non-ASCII/YAML-hostile strings, byte and string slices, maps, pointers, nil and empty; GSubject: gencode; []byte: RAW; USubject: unmarshalable) with the real codecs' results as fact lines, followed by (roundtrip) Dump/DumpIndent/DumpAndCompress for every format id in {AUTO,RAW,CBOR,GenCode,JSON,MsgPack,YAML} + one unsupported id x compression {AUTO,GZIP,unsupported} each followed by Load/LoadAsFormat/DecompressAndLoad, or (http) DumpToHTTPRequest→LoadFromHTTPRequest→DumpToHTTPResponse→LoadFromHTTPResponse for every format id and MimeDump/MimeLoad/DumpToHTTPResponse for Accept headers from a media-range grammar (types, supported/unsupported/wildcard subtypes, parameters, q-values, ASCII and Unicode whitespace, case incl. KELVIN SIGN, garbage), or (http-wire) the same request/response cycle through a real httptest.Server connection, or (accept) FormatFromAccept on 16 such headers, or (malformed/totality) Load/DecompressAndLoad/LoadAsFormat/MimeLoad on truncations, bit flips, identifier rewrites, two-byte identifiers, gzip wrappers and random bytes. Non-trivial: every case except those on the unmarshalable type; accept cases only if a header has >= 2 elements or a parameter. Distinct by the hash of the op lines.",
+		Rule:     "a case is one schema value (Subject: nested structs, all integer widths within ±(2^53-1), ASCII/non-ASCII/YAML-hostile strings, byte and string slices, maps, pointers, nil and empty; GSubject: gencode; []byte: RAW; USubject: unmarshalable) with the real codecs' results as fact lines, followed by (roundtrip) Dump/DumpIndent/DumpAndCompress for every format id in {AUTO,RAW,CBOR,GenCode,JSON,MsgPack,YAML} + one unsupported id x compression {AUTO,GZIP,unsupported} each followed by Load/LoadAsFormat/DecompressAndLoad, or (http) DumpToHTTPRequest→LoadFromHTTPRequest→DumpToHTTPResponse→LoadFromHTTPResponse for every format id and MimeDump/MimeLoad/DumpToHTTPResponse for Accept headers from a media-range grammar (types, supported/unsupported/wildcard subtypes, parameters, q-values, ASCII and Unicode whitespace, case incl. KELVIN SIGN, garbage), or (http-wire) the same request/response cycle through a real httptest.Server connection, or (accept) FormatFromAccept on 16 such headers, or (malformed/totality) Load/DecompressAndLoad/LoadAsFormat/MimeLoad on truncations, bit flips, identifier rewrites, two-byte identifiers, gzip wrappers and random bytes, or (held) 2-6 values of one type (a value, a same-size variant, other sizes, an equal copy) dumped in mixed order through Dump/DumpIndent/DumpAndCompress/MimeDump/DumpToHTTPRequest/DumpToHTTPResponse with loads in between, every result kept as returned and loaded again later (`held`, at least twice), or (concurrent) 2-4 goroutines dumping their own values 4-15 times through 2-4 of these functions at once, all results loaded after the join. About a third of the roundtrip/http/http-wire/held/concurrent cases assign dsd.DefaultSerializationFormat (JSON, CBOR, MsgPack, YAML, GenCode, RAW, rarely a value that is no format) and dsd.DefaultCompressionFormat (`cfg` lines, also in the middle of a case); every http case sends the 'no preference' Accept values (missing header, empty, */*, *, text/*, lists with q-values). One string in eight is composed from a dictionary of escape look-alikes (backslash + u003c/u0026/u2028/ud800, JSON/YAML escapes, HTML entities, YAML indicators, control characters). Non-trivial: every case except those on the unmarshalable type; accept cases only if a header has >= 2 elements or a parameter. Distinct by the hash of the op lines.",
 		Generate: generate,
 		NewExec:  newExec,
 		Monitor:  monitor,
